@@ -382,6 +382,7 @@ func init() {
 		Build: func(c *Ctx) []*an.Oblig {
 			bufferWriterAudit(c)
 			putReturns(c)
+			c.errPolarity("(*Buffer).Put", "(*Buffer).get", "(*consumer).Get")
 			getIndex(c)
 			registerAndCommit(c)
 			consumerGet(c)
